@@ -214,6 +214,24 @@ def same_name_family():
     return out
 
 
+def inlined_choice_family():
+    """Choices whose operands are single items WITHOUT actions (the generator inlines them into one `seq_alts` call), with a
+    repetition or an optional as a non-last operand: a failed `x+` is an empty list, a failed `[x]` is None - both must
+    let the choice go on."""
+    def T(s):
+        return {"k": "tok", "s": s}
+
+    plus = {"k": "plus", "x": T("a")}
+    gath = {"k": "gather", "sep": T("c"), "x": T("a")}
+    out = []
+    for first in (plus, gath, {"k": "group", "alts": [{"items": [T("a"), T("a")], "action": None}]}):
+        out.append({"rules": [{"name": "r0", "memo": False, "alts": [{"items": [dict(first)], "action": None}, {"items": [T("b")], "action": None}]}]})
+        grp = {"k": "group", "alts": [{"items": [dict(first)], "action": None}, {"items": [T("b")], "action": None}, {"items": [T("c")], "action": None}]}
+        out.append({"rules": [{"name": "r0", "memo": False, "alts": [{"items": [T("c"), dict(grp, name="x"), T("c")], "action": "tuple"}]}]})
+        out.append({"rules": [{"name": "r0", "memo": True, "alts": [{"items": [{"k": "gather", "sep": T("c"), "x": dict(grp), "name": "x"}, T("b")], "action": "tuple"}]}]})
+    return out
+
+
 def multi_cycle_family():
     """Indirectly left-recursive components with TWO cycles that share only some of their rules, under every assignment
     of the rule names (which rule sorts first/last decides which candidate a leader search looks at): the only rule on
@@ -258,10 +276,10 @@ def run(rep, tier, pool, variants=("shipped",)):
     gs = list(FIXED)
     fam = [g for g in multi_cycle_family() if G.well_formed(g)]
     gs += fam if tier != "quick" else [fam[i] for i in range(0, len(fam), 2)]
-    gs += [g for g in same_name_family() if G.well_formed(g)]
+    gs += [g for g in same_name_family() + inlined_choice_family() if G.well_formed(g)]
     rep.extra["multi_cycle_grammars"] = len(fam)
     tries = 0
-    while len(gs) < n + len(FIXED) + len(fam) + 12 and tries < n * 60:
+    while len(gs) < n + len(FIXED) + len(fam) + 21 and tries < n * 60:
         tries += 1
         g = G.gen_grammar(r)
         try:
